@@ -34,6 +34,13 @@ package main
 //   e ::= variable | e.field | e[0] | e[1:] | l[i] | len(e) | e.deepCopy() | NewNodePath(e...) | []*NodePath{e, …}
 //   e[0] and e[1:] are partial (index out of range): the translation binds them through an option and ends in
 //   Crash (a panic); the agreement theorems show that this never happens.
+// Round 5 — rewrites absorbed before / while translating (the translation of the unchanged source is not affected):
+//   a condition that is a call of a private predicate helper `return <bool expr>` (inlinePred); a statement helper that is
+//   handed the accumulator map, called as `h(acc, …)` or `if err := h(acc, …); err != nil { return nil, err }`
+//   (inlineStmtHelper); `if h(args) { A }` with h a search loop `for … { if C { return true } }; return false`
+//   (c16SearchHelperLoop: the loop with `A; break`); a straight-line expression helper (inlineExprHelper);
+//   switch { … } / switch tag { … } as if-chains; bare blocks; `v, ok := m[k]` followed by `if !ok { … }`; `p := &s[i]`;
+//   < > <= >= on lengths; the accumulator under any name (c16AccName).
 // Statements that only touch the RunInfo (ri := …; if meta != nil { ri.X = … }) are outside the model; they are
 // skipped and listed in the generated file.  Anything else: "source shape not recognised" (tie unavailable).
 
@@ -167,6 +174,11 @@ func (t *c16Tr) expr(root *c16Root, e ast.Expr) (c16Expr, error) {
 			return c16Expr{s: v.coq, ty: v.ty}, nil
 		}
 		return c16Expr{}, t.errf(e, "variable %s is outside the translated fragment", x.Name)
+	case *ast.UnaryExpr:
+		// p := &s[i]: the fragment only reads through p, a pointer to an element stands for the element
+		if _, isIdx := x.X.(*ast.IndexExpr); isIdx && x.Op == token.AND {
+			return t.expr(root, x.X)
+		}
 	case *ast.BasicLit:
 		if x.Kind == token.INT {
 			return c16Expr{s: x.Value, ty: "nat"}, nil
@@ -234,6 +246,9 @@ func (t *c16Tr) expr(root *c16Root, e ast.Expr) (c16Expr, error) {
 		}
 		return c16Expr{}, t.errf(e, "slice expression %s is outside the translated fragment", c16Str(e))
 	case *ast.CallExpr:
+		if r, isHelper, err := t.inlineExprHelper(root, x); isHelper {
+			return r, err
+		}
 		switch f := x.Fun.(type) {
 		case *ast.Ident:
 			if f.Name == "len" && len(x.Args) == 1 {
@@ -315,6 +330,31 @@ func (t *c16Tr) atom(root *c16Root, e ast.Expr) (c16Expr, error) {
 		}
 	}
 	x, ok := e.(*ast.BinaryExpr)
+	if ok && (x.Op == token.LSS || x.Op == token.GTR || x.Op == token.LEQ || x.Op == token.GEQ) {
+		// order comparisons of lengths / integer literals
+		a, err := t.expr(root, x.X)
+		if err != nil {
+			return c16Expr{}, err
+		}
+		b, err := t.expr(root, x.Y)
+		if err != nil {
+			return c16Expr{}, err
+		}
+		if a.ty != "nat" || b.ty != "nat" {
+			return c16Expr{}, t.errf(e, "order comparison of a %s with a %s", a.ty, b.ty)
+		}
+		binds := append(append([]c16Bind{}, a.binds...), b.binds...)
+		switch x.Op {
+		case token.LSS:
+			return c16Expr{"(Nat.ltb " + a.s + " " + b.s + ")", "bool", binds}, nil
+		case token.GTR:
+			return c16Expr{"(Nat.ltb " + b.s + " " + a.s + ")", "bool", binds}, nil
+		case token.LEQ:
+			return c16Expr{"(Nat.leb " + a.s + " " + b.s + ")", "bool", binds}, nil
+		default:
+			return c16Expr{"(Nat.leb " + b.s + " " + a.s + ")", "bool", binds}, nil
+		}
+	}
 	if !ok || (x.Op != token.EQL && x.Op != token.NEQ) {
 		return c16Expr{}, t.errf(e, "condition %s is outside the translated fragment", c16Str(e))
 	}
@@ -650,6 +690,262 @@ func c16SwitchToIf(x *ast.SwitchStmt) (ast.Stmt, error) {
 	return chain, nil
 }
 
+// ---- search helpers: a private function   func h(…) bool { for _, p := range l { if C { return true } }; return false }
+// used as   if h(args) { A }   (no else) is the loop it was extracted from:   for _, p := range l' { if C' { A; break } }
+// with the parameters replaced by the arguments. A must not contain break / continue / return (they would bind to the
+// new loop) and must not mention the helper's loop variables.
+
+// c16Subst: e with the identifiers of m replaced (nil: a node kind outside the fragment)
+func c16Subst(e ast.Expr, m map[string]ast.Expr) ast.Expr {
+	switch x := e.(type) {
+	case *ast.Ident:
+		if r, ok := m[x.Name]; ok {
+			return r
+		}
+		return x
+	case *ast.BasicLit:
+		return x
+	case *ast.ParenExpr:
+		if a := c16Subst(x.X, m); a != nil {
+			return &ast.ParenExpr{X: a}
+		}
+	case *ast.SelectorExpr:
+		if a := c16Subst(x.X, m); a != nil {
+			return &ast.SelectorExpr{X: a, Sel: x.Sel}
+		}
+	case *ast.IndexExpr:
+		a, b := c16Subst(x.X, m), c16Subst(x.Index, m)
+		if a != nil && b != nil {
+			return &ast.IndexExpr{X: a, Index: b}
+		}
+	case *ast.SliceExpr:
+		if x.High == nil && x.Max == nil && x.Low != nil {
+			a, b := c16Subst(x.X, m), c16Subst(x.Low, m)
+			if a != nil && b != nil {
+				return &ast.SliceExpr{X: a, Low: b}
+			}
+		}
+	case *ast.UnaryExpr:
+		if a := c16Subst(x.X, m); a != nil {
+			return &ast.UnaryExpr{Op: x.Op, X: a}
+		}
+	case *ast.BinaryExpr:
+		a, b := c16Subst(x.X, m), c16Subst(x.Y, m)
+		if a != nil && b != nil {
+			return &ast.BinaryExpr{X: a, Op: x.Op, Y: b}
+		}
+	case *ast.CallExpr:
+		if id, ok := x.Fun.(*ast.Ident); ok && id.Name == "len" && len(x.Args) == 1 {
+			if a := c16Subst(x.Args[0], m); a != nil {
+				return &ast.CallExpr{Fun: x.Fun, Args: []ast.Expr{a}}
+			}
+		}
+		if c16Str(x.Fun) == "reflect.TypeOf" && len(x.Args) == 1 {
+			if a := c16Subst(x.Args[0], m); a != nil {
+				return &ast.CallExpr{Fun: x.Fun, Args: []ast.Expr{a}}
+			}
+		}
+	}
+	return nil
+}
+
+// c16SearchHelperLoop: the loop that   if h(args) { body }   stands for (nil: h is not a search helper / not applicable)
+func (t *c16Tr) c16SearchHelperLoop(ifs *ast.IfStmt) ast.Stmt {
+	call, ok := ifs.Cond.(*ast.CallExpr)
+	if !ok || ifs.Init != nil || ifs.Else != nil || call.Ellipsis.IsValid() || c16Repo == "" {
+		return nil
+	}
+	id, ok := call.Fun.(*ast.Ident)
+	if !ok {
+		return nil
+	}
+	if _, local := t.vars[id.Name]; local {
+		return nil
+	}
+	fn := c16LoadFuncs()[id.Name]
+	if fn == nil || fn.Type.Results == nil || len(fn.Type.Results.List) != 1 || len(fn.Type.Results.List[0].Names) != 0 ||
+		c16Str(fn.Type.Results.List[0].Type) != "bool" || len(fn.Body.List) != 2 {
+		return nil
+	}
+	params := c16PlainParams(fn)
+	if params == nil || len(params) != len(call.Args) {
+		return nil
+	}
+	rg, ok := fn.Body.List[0].(*ast.RangeStmt)
+	last, ok2 := fn.Body.List[1].(*ast.ReturnStmt)
+	if !ok || !ok2 || rg.Tok != token.DEFINE || len(rg.Body.List) != 1 || len(last.Results) != 1 || c16Str(last.Results[0]) != "false" {
+		return nil
+	}
+	hit, ok := rg.Body.List[0].(*ast.IfStmt)
+	if !ok || hit.Init != nil || hit.Else != nil || len(hit.Body.List) != 1 {
+		return nil
+	}
+	rt, ok := hit.Body.List[0].(*ast.ReturnStmt)
+	if !ok || len(rt.Results) != 1 || c16Str(rt.Results[0]) != "true" {
+		return nil
+	}
+	m := map[string]ast.Expr{}
+	for i, pn := range params {
+		if pn != "_" {
+			m[pn] = call.Args[i]
+		}
+	}
+	loopVars := map[string]bool{}
+	for _, v := range []ast.Expr{rg.Key, rg.Value} {
+		if v != nil && c16Str(v) != "_" {
+			loopVars[c16Str(v)] = true
+			delete(m, c16Str(v)) // a loop variable hides a parameter of the same name
+			if _, clash := t.vars[c16Str(v)]; clash {
+				return nil
+			}
+		}
+	}
+	over, cond := c16Subst(rg.X, m), c16Subst(hit.Cond, m)
+	if over == nil || cond == nil {
+		return nil
+	}
+	clean := true
+	for _, st := range ifs.Body.List {
+		ast.Inspect(st, func(n ast.Node) bool {
+			switch y := n.(type) {
+			case *ast.BranchStmt, *ast.ReturnStmt, *ast.FuncLit:
+				clean = false
+			case *ast.Ident:
+				if loopVars[y.Name] {
+					clean = false
+				}
+			}
+			return clean
+		})
+	}
+	if !clean {
+		return nil
+	}
+	body := append(append([]ast.Stmt{}, ifs.Body.List...), &ast.BranchStmt{Tok: token.BREAK})
+	return &ast.RangeStmt{Key: rg.Key, Value: rg.Value, Tok: token.DEFINE, X: over,
+		Body: &ast.BlockStmt{List: []ast.Stmt{&ast.IfStmt{Cond: cond, Body: &ast.BlockStmt{List: body}}}}}
+}
+
+// ---- expression helpers: a private function of the package with one result and a straight-line body
+//
+//	x := e    x.paths = e    return e
+//
+// called inside an expression is evaluated by substitution: the parameters stand for the translated arguments, every
+// local for the translation of the expression last assigned to it. (The fragment's expressions have no effects.)
+func (t *c16Tr) inlineExprHelper(root *c16Root, call *ast.CallExpr) (c16Expr, bool, error) {
+	id, ok := call.Fun.(*ast.Ident)
+	if !ok || call.Ellipsis.IsValid() || c16Repo == "" || c16PredDepth >= 3 {
+		return c16Expr{}, false, nil
+	}
+	switch id.Name {
+	case "len", "NewNodePath", "make", "append":
+		return c16Expr{}, false, nil
+	}
+	if _, local := t.vars[id.Name]; local {
+		return c16Expr{}, false, nil
+	}
+	fn := c16LoadFuncs()[id.Name]
+	if fn == nil || fn.Type.Results == nil || len(fn.Type.Results.List) != 1 || len(fn.Type.Results.List[0].Names) != 0 ||
+		c16Str(fn.Type.Results.List[0].Type) == "bool" || c16Str(fn.Type.Results.List[0].Type) == "error" {
+		return c16Expr{}, false, nil
+	}
+	params := c16PlainParams(fn)
+	if params == nil || len(params) != len(call.Args) || len(fn.Body.List) == 0 {
+		return c16Expr{}, false, nil
+	}
+	tc := t.clone()
+	tc.vars, tc.idx = map[string]c16Var{}, map[string]string{}
+	tc.fn = t.fn + " -> " + id.Name
+	var binds []c16Bind
+	for i, a := range call.Args {
+		b, err := t.expr(root, a)
+		if err != nil {
+			return c16Expr{}, true, err
+		}
+		if params[i] != "_" {
+			tc.vars[params[i]] = c16Var{b.s, b.ty}
+		}
+		binds = append(binds, b.binds...)
+	}
+	c16PredDepth++
+	defer func() { c16PredDepth-- }()
+	for i, st := range fn.Body.List {
+		switch x := st.(type) {
+		case *ast.AssignStmt:
+			if len(x.Lhs) != 1 || len(x.Rhs) != 1 {
+				return c16Expr{}, true, tc.errf(x, "statement of the helper is outside the translated fragment")
+			}
+			v, err := tc.expr(root, x.Rhs[0])
+			if err != nil {
+				return c16Expr{}, true, err
+			}
+			binds = append(binds, v.binds...)
+			switch lhs := x.Lhs[0].(type) {
+			case *ast.Ident:
+				if lhs.Name != "_" {
+					tc.vars[lhs.Name] = c16Var{v.s, v.ty}
+				}
+			case *ast.SelectorExpr:
+				base, isId := lhs.X.(*ast.Ident)
+				cur, known := tc.vars[c16Str(lhs.X)]
+				if !isId || !known || cur.ty != "opt" || lhs.Sel.Name != "paths" || v.ty != "npaths" || x.Tok != token.ASSIGN {
+					return c16Expr{}, true, tc.errf(x, "assignment to %s is outside the translated fragment", c16Str(lhs))
+				}
+				tc.vars[base.Name] = c16Var{"(set_paths " + cur.coq + " " + v.s + ")", "opt"}
+			default:
+				return c16Expr{}, true, tc.errf(x, "assignment to %s is outside the translated fragment", c16Str(x.Lhs[0]))
+			}
+		case *ast.ReturnStmt:
+			if i != len(fn.Body.List)-1 || len(x.Results) != 1 {
+				return c16Expr{}, true, tc.errf(x, "return of the helper is outside the translated fragment")
+			}
+			v, err := tc.expr(root, x.Results[0])
+			if err != nil {
+				return c16Expr{}, true, err
+			}
+			return c16Expr{v.s, v.ty, append(binds, v.binds...)}, true, nil
+		default:
+			return c16Expr{}, true, tc.errf(st, "statement of the helper is outside the translated fragment")
+		}
+	}
+	return c16Expr{}, true, tc.errf(call, "the helper %s does not end in a return", id.Name)
+}
+
+// c16AccName: the Go name of the accumulator of a translated function — the top-level variable of the body that is
+// declared as   var x []callbacks.Handler   (kind "handlers"),   x := map[string][]any{}   or   x, err := callee(…)
+// (kind "optmap"); def when there is not exactly one. The Gallina name of the accumulator does not depend on it.
+func c16AccName(body []ast.Stmt, kind, callee, def string) string {
+	var found []string
+	for _, st := range body {
+		switch x := st.(type) {
+		case *ast.DeclStmt:
+			gd, ok := x.Decl.(*ast.GenDecl)
+			if !ok || gd.Tok != token.VAR || kind != "handlers" {
+				continue
+			}
+			for _, sp := range gd.Specs {
+				if vs, ok := sp.(*ast.ValueSpec); ok && len(vs.Names) == 1 && len(vs.Values) == 0 && c16Str(vs.Type) == "[]callbacks.Handler" {
+					found = append(found, vs.Names[0].Name)
+				}
+			}
+		case *ast.AssignStmt:
+			if kind != "optmap" || x.Tok != token.DEFINE || len(x.Rhs) != 1 {
+				continue
+			}
+			if cl, ok := x.Rhs[0].(*ast.CompositeLit); ok && len(x.Lhs) == 1 && callee == "" && c16Str(cl.Type) == "map[string][]any" {
+				found = append(found, c16Str(x.Lhs[0]))
+			}
+			if call, ok := x.Rhs[0].(*ast.CallExpr); ok && len(x.Lhs) == 2 && callee != "" && c16Str(call.Fun) == callee {
+				found = append(found, c16Str(x.Lhs[0]))
+			}
+		}
+	}
+	if len(found) == 1 && found[0] != "_" {
+		return found[0]
+	}
+	return def
+}
+
 func c16WrapBinds(binds []c16Bind, body, ind string) string {
 	for i := len(binds) - 1; i >= 0; i-- {
 		body = "match " + binds[i].partial + " with\n" + ind + "| None => Crash\n" + ind + "| Some " + binds[i].v + " =>\n" + ind + "  " + body + "\n" + ind + "end"
@@ -858,6 +1154,15 @@ func (t *c16Tr) stmts(root *c16Root, l []ast.Stmt, k string, ind string) (string
 	}
 	rest := l[1:]
 	in2 := ind + "  "
+	// v, ok := m[k]; if !ok { … }   is   var v; if v, ok = m[k]; !ok { … }
+	if as, isAs := l[0].(*ast.AssignStmt); isAs && as.Tok == token.DEFINE && len(as.Lhs) == 2 && len(as.Rhs) == 1 && len(rest) > 0 {
+		if _, isIdx := as.Rhs[0].(*ast.IndexExpr); isIdx {
+			if ifs, isIf := rest[0].(*ast.IfStmt); isIf && ifs.Init == nil && ifs.Else == nil && c16Str(ifs.Cond) == "!"+c16Str(as.Lhs[1]) {
+				merged := &ast.IfStmt{Init: as, Cond: ifs.Cond, Body: ifs.Body}
+				return t.stmts(root, append([]ast.Stmt{merged}, rest[1:]...), k, ind)
+			}
+		}
+	}
 	switch x := l[0].(type) {
 	case *ast.EmptyStmt:
 		return t.stmts(root, rest, k, ind)
@@ -1174,6 +1479,9 @@ func (t *c16Tr) stmts(root *c16Root, l []ast.Stmt, k string, ind string) (string
 		if t.ignorable(x) {
 			root.skipped = append(root.skipped, "if "+c16Str(x.Cond)+" { … }")
 			return t.stmts(root, rest, k, ind)
+		}
+		if loop := t.c16SearchHelperLoop(x); loop != nil {
+			return t.stmts(root, append([]ast.Stmt{loop}, rest...), k, ind)
 		}
 		// if err := helper(acc, …); err != nil { return nil, err }
 		if as, ok := x.Init.(*ast.AssignStmt); ok && len(as.Lhs) == 1 && len(as.Rhs) == 1 && x.Else == nil && t.helperRet == "" {
@@ -1506,8 +1814,9 @@ func c16ExtractOption(repo string) (string, string, error) {
 		return "", "", fmt.Errorf("extractOption: parameters (%s)", got)
 	}
 	root := &c16Root{}
-	t := &c16Tr{fn: "extractOption", acc: "optMap", accTy: "optmap", idx: map[string]string{}, ignore: map[string]bool{}, hasCopy: true,
-		vars: map[string]c16Var{"nodes": {"nodes", "nodes"}, "opts": {"opts", "opts"}, "optMap": {"optMap", "optmap"}},
+	accName := c16AccName(fn.Body.List, "optmap", "", "optMap")
+	t := &c16Tr{fn: "extractOption", acc: accName, accTy: "optmap", idx: map[string]string{}, ignore: map[string]bool{}, hasCopy: true,
+		vars: map[string]c16Var{"nodes": {"nodes", "nodes"}, "opts": {"opts", "opts"}, accName: {"optMap", "optmap"}},
 		errs: map[string]string{
 			"call option has designated an empty path": "E_EMPTY_PATH",
 			"option has designated an unknown node":    "E_UNKNOWN",
@@ -1554,8 +1863,9 @@ func c16ExtractCallbacks(repo string) (string, string, error) {
 			return "", "", fmt.Errorf("%s: parameters (%s)", spec.name, got)
 		}
 		root := &c16Root{}
-		t := &c16Tr{fn: spec.name, acc: "cbs", accTy: "handlers", idx: map[string]string{}, ignore: map[string]bool{"ri": true}, ctxArg: "ctx",
-			vars: map[string]c16Var{"opts": {"opts", "opts"}, "cbs": {"cbs", "handlers"}, "key": {"key", "key"}},
+		accName := c16AccName(fn.Body.List, "handlers", "", "cbs")
+		t := &c16Tr{fn: spec.name, acc: accName, accTy: "handlers", idx: map[string]string{}, ignore: map[string]bool{"ri": true}, ctxArg: "ctx",
+			vars: map[string]c16Var{"opts": {"opts", "opts"}, accName: {"cbs", "handlers"}, "key": {"key", "key"}},
 			errs: map[string]string{}}
 		body, err := t.stmts(root, fn.Body.List, "Next", "    ")
 		if err != nil {
@@ -2165,8 +2475,9 @@ func c16ExtractValidate(repo string) (string, string, error) {
 		return "", "", fmt.Errorf("runner.extractOption: parameters (%s)", got)
 	}
 	root := &c16Root{}
-	t := &c16Tr{fn: "runner.extractOption", acc: "optMap", accTy: "optmap", idx: map[string]string{}, ignore: map[string]bool{}, callee: "extractOption",
-		vars: map[string]c16Var{recv + ".chanSubscribeTo": {"nodes", "nodes"}, "opts": {"opts", "opts"}, "optMap": {"optMap", "optmap"}},
+	accName := c16AccName(fn.Body.List, "optmap", "extractOption", "optMap")
+	t := &c16Tr{fn: "runner.extractOption", acc: accName, accTy: "optmap", idx: map[string]string{}, ignore: map[string]bool{}, callee: "extractOption",
+		vars: map[string]c16Var{recv + ".chanSubscribeTo": {"nodes", "nodes"}, "opts": {"opts", "opts"}, accName: {"optMap", "optmap"}},
 		errs: map[string]string{}}
 	body, err := t.stmts(root, fn.Body.List, "Next", "    ")
 	if err != nil {
